@@ -3,6 +3,8 @@ package main
 import (
 	"go/ast"
 	"go/token"
+	"go/types"
+	"sort"
 	"strings"
 
 	"golang.org/x/tools/go/ssa"
@@ -147,13 +149,34 @@ func runC02(c *Ctx) {
 			r.Undec("R-GATE-DRAIN", "serveOne", u.Pos(fn.Pos()), "expected one checkProtocolVersion call")
 		} else {
 			okDrain := false
+			pred := ""
 			for _, cs := range u.Calls(fn, Is("drainInputStream")) {
 				if u.HasGuardContaining(cs.Instr, "checkProtocolVersion(", "!= nil") {
 					okDrain = true
+					for _, g := range u.GuardStrings(cs.Instr) {
+						if strings.Contains(g, "info.Type") || strings.Contains(g, ".Type") && strings.Contains(g, "methods[") {
+							pred = g
+						}
+					}
+					if pred == "" {
+						// unconditional drain would block on a unary call (no input stream follows): must be stream-only
+						for _, p := range cs.Instr.Block().Preds {
+							if ifi, ok := p.Instrs[len(p.Instrs)-1].(*ssa.If); ok {
+								pred = "∨-edge:" + u.Describe(ifi.Cond)
+							}
+						}
+					}
 				}
 			}
 			r.Check(okDrain, "R-GATE-DRAIN", "serveOne|version-refusal", u.Pos(gate[0].Instr.Pos()),
 				"version refusal drains the stream method's input", "the protocol-version refusal answers a stream call with an error but never drains the client's input stream: the next ReadRequest parses the tick stream")
+			if okDrain {
+				// the drain predicate must be "the method is a stream" in the same sense the dispatcher uses
+				canonical := strings.Contains(pred, `(methodTypeString(`) && strings.HasSuffix(pred, `== "stream")`) || strings.HasSuffix(pred, ".Type != 0)") || strings.Contains(pred, `!= "unary")`)
+				r.Check(canonical, "R-GATE-DRAIN", "serveOne|drain-predicate", u.Pos(gate[0].Instr.Pos()),
+					"drain applies to every stream method: "+pred, "the refusal drains only under `"+pred+"`, which is not the dispatcher's stream predicate (methodTypeString(info.Type) == \"stream\" / Type != MethodUnary): some stream kinds (e.g. dynamic) are refused without draining")
+			}
+			c.streamPredicateTable(fn)
 		}
 	}
 	// serveUnary
@@ -239,6 +262,18 @@ func runC02(c *Ctx) {
 			return
 		}
 		drainNext := nexts[len(nexts)-1].Instr
+		// the drain must be a loop that only exits when Next() reports end of stream
+		dv := nexts[len(nexts)-1].Value()
+		_, loops := ReachWithout(fn, drainNext, isInstr(drainNext), nil)
+		r.Check(loops, "R-READ-DRAIN", "ReadRequest|drain-loop", u.Pos(drainNext.Pos()), "drain is a loop over reader.Next()", "the post-batch Next() is not a loop: extra batches (and the end-of-stream marker) of a multi-batch request are left on the connection")
+		exitedByEOS := func(in ssa.Instruction) bool {
+			for _, g := range GuardsAt(in.Block()) {
+				if g.Cond == dv && !g.Truth {
+					return true
+				}
+			}
+			return false
+		}
 		i := 0
 		Instrs(fn, func(in ssa.Instruction) {
 			ret, ok := in.(*ssa.Return)
@@ -251,7 +286,7 @@ func runC02(c *Ctx) {
 			}
 			i++
 			_, undrained := ReachWithout(fn, nil, isInstr(in), isInstr(drainNext))
-			r.Check(!undrained, "R-READ-DRAIN", "ReadRequest|return#"+itoa(i), u.Pos(in.Pos()), "request stream drained to EOS before this return", "ReadRequest can return a validation verdict without draining the request stream to end-of-stream")
+			r.Check(!undrained && exitedByEOS(in), "R-READ-DRAIN", "ReadRequest|return#"+itoa(i), u.Pos(in.Pos()), "request stream drained to EOS before this return", "ReadRequest can return a verdict without having drained the request stream to end-of-stream (return not on the Next()==false edge of the drain loop)")
 		})
 	}
 }
@@ -348,6 +383,47 @@ func runC04(c *Ctx) {
 		}
 	}
 
+	// inside the batch writers: the value stamped under the request-id key is the requestID parameter itself
+	for _, name := range []string{"writeLogBatch", "writeErrorBatch"} {
+		wf := c.Fn("R-REQID", name)
+		if wf == nil {
+			continue
+		}
+		found := false
+		Instrs(wf, func(in ssa.Instruction) {
+			st, ok := in.(*ssa.Store)
+			if !ok {
+				return
+			}
+			if s, isC := ConstString(st.Val); !isC || s != "vgi_rpc.request_id" {
+				return
+			}
+			found = true
+			var vals []string
+			okAll := true
+			for _, x := range st.Block().Instrs {
+				s2, ok := x.(*ssa.Store)
+				if !ok || s2 == st {
+					continue
+				}
+				if ia, ok := s2.Addr.(*ssa.IndexAddr); ok {
+					if al, ok := ia.X.(*ssa.Alloc); ok && al.Comment == "varargs" {
+						d := u.Describe(s2.Val)
+						vals = append(vals, d)
+						if d != "requestID" {
+							okAll = false
+						}
+					}
+				}
+			}
+			r.Check(okAll && len(vals) == 1 && u.HasGuardContaining(in, `(requestID != "")`), "R-REQID", name+"|stamped-value", u.Pos(in.Pos()),
+				"request-id key carries the caller-supplied requestID parameter", "the value written under vgi_rpc.request_id is {"+strings.Join(vals, ",")+"}, not the requestID parameter: the batch no longer echoes the client's request id")
+		})
+		if !found {
+			r.Undec("R-REQID", name+"|stamped-value", u.Pos(wf.Pos()), "request-id key store not found")
+		}
+	}
+
 	// R-LOG-FILTER
 	if fn := c.Fn("R-LOG-FILTER", "(*CallContext).ClientLog"); fn != nil {
 		sts := u.StoresToField(fn, "CallContext", "logs")
@@ -355,8 +431,10 @@ func runC04(c *Ctx) {
 			r.Undec("R-LOG-FILTER", "ClientLog", u.Pos(fn.Pos()), "no append to ctx.logs")
 		}
 		for _, s := range sts {
-			ok := u.HasGuardContaining(s, "logLevelPriority(level) <= logLevelPriority(ctx.LogLevel)")
-			r.Check(ok, "R-LOG-FILTER", "ClientLog|append", u.Pos(s.Pos()), "append guarded by priority(level) <= priority(requested)", "log append not guarded by the level filter; guards: "+strings.Join(u.GuardStrings(s), " && "))
+			gs := u.GuardStrings(s)
+			ok := len(gs) == 1 && gs[0] == "(logLevelPriority(level) <= logLevelPriority(ctx.LogLevel))"
+			r.Check(ok, "R-LOG-FILTER", "ClientLog|append", u.Pos(s.Pos()), "append conditioned on exactly priority(level) <= priority(requested)",
+				"the log append is conditioned on {"+strings.Join(gs, " && ")+"} — it must depend on exactly priority(level) <= priority(ctx.LogLevel): any extra condition drops messages at or above the requested level, a missing one leaks lower levels")
 		}
 	}
 	c.logPriorityTable()
@@ -463,6 +541,24 @@ func runC06(c *Ctx) {
 		r.Check(!reach, "R-CANCEL", "serveStream|no-turn-after-cancel", u.Pos(cancel[0].Instr.Pos()), "after the cancel hook neither a turn nor a second cancel is reachable", "after OnCancel a Produce/Exchange turn (or a second OnCancel) is still reachable")
 		okG := u.HasGuardContaining(cancel[0].Instr, "GetValue(", `"vgi_rpc.cancel"`)
 		r.Check(okG, "R-CANCEL", "serveStream|cancel-guard", u.Pos(cancel[0].Instr.Pos()), "cancel hook runs only for a batch carrying the cancel key", "cancel hook not guarded by the cancel metadata key")
+		// whatever the state implements, a cancel batch never reaches a turn: from the
+		// "cancel key present" edge the turn is unreachable
+		Instrs(fn, func(in ssa.Instruction) {
+			ifi, ok := in.(*ssa.If)
+			if !ok {
+				return
+			}
+			d := u.Describe(ifi.Cond)
+			if !strings.Contains(d, `"vgi_rpc.cancel"`) || !strings.HasSuffix(d, "#1") {
+				return
+			}
+			tb := ifi.Block().Succs[0]
+			_, reach := ReachWithout(fn, tb.Instrs[0], isInstr(t.Instr), nil)
+			r.Check(!reach, "R-CANCEL", "serveStream|cancel-edge-ends-stream", u.Pos(ifi.Pos()), "a batch carrying the cancel key can never be handed to Produce/Exchange", "on the cancel-key-present edge a Produce/Exchange turn is still reachable (e.g. for states without a cancel hook): the cancel batch is processed as input")
+		})
+		// hook isolation: the recover that contains an OnCancel panic is local to the hook call,
+		// so the stream still terminates normally afterwards
+		r.Check(cfn.Parent() == fn && len(u.RecoverDefers(cfn)) > 0, "R-CANCEL", "serveStream|hook-isolated", u.Pos(cancel[0].Instr.Pos()), "OnCancel runs in its own recover closure", "OnCancel is not isolated in its own recover closure: a panicking hook skips the rest of the stream termination")
 	} else {
 		r.Viol("R-CANCEL", "serveStream|OnCancel", u.Pos(fn.Pos()), "expected one OnCancel closure call, found "+itoa(len(cancel)))
 	}
@@ -783,6 +879,94 @@ func runC37(c *Ctx) {
 			r.Check(!bad, "R-ERR-IFF-ERROR-RESPONSE", name+"|"+cs.Callee, u.Pos(cs.Instr.Pos()), "an error response is reported to the caller as a non-nil error", "after writing an error response the helper can return nil: the end hook sees success")
 		}
 	}
+}
+
+// streamPredicateTable: the MethodType constants serveOne dispatches to
+// serveStream are exactly those methodTypeString renders as "stream".
+func (c *Ctx) streamPredicateTable(serveOne *ssa.Function) {
+	u, r := c.U, c.R
+	dispatch := map[string]bool{}
+	if decl := u.Decl(serveOne); decl != nil {
+		ast.Inspect(decl.Body, func(n ast.Node) bool {
+			cc, ok := n.(*ast.CaseClause)
+			if !ok {
+				return true
+			}
+			callsStream := false
+			ast.Inspect(cc, func(m ast.Node) bool {
+				if ce, ok := m.(*ast.CallExpr); ok {
+					if se, ok := ce.Fun.(*ast.SelectorExpr); ok && se.Sel.Name == "serveStream" {
+						callsStream = true
+					}
+				}
+				return true
+			})
+			if callsStream {
+				for _, e := range cc.List {
+					if v, ok := u.constOf(e); ok {
+						dispatch[v] = true
+					}
+				}
+			}
+			return true
+		})
+	}
+	// methodTypeString: evaluate it on every declared MethodType constant by following its
+	// comparisons against constants (if-chains and switches both lower to t == K tests)
+	rendered := map[string]bool{}
+	if mf := u.Func("methodTypeString"); mf != nil {
+		scope := u.Root.Types.Scope()
+		for _, n := range scope.Names() {
+			cst, ok := scope.Lookup(n).(*types.Const)
+			if !ok || typeShort(cst.Type()) != "MethodType" {
+				continue
+			}
+			k := cst.Val().ExactString()
+			// walk the CFG deciding each `t == K'` test
+			b := mf.Blocks[0]
+			for steps := 0; steps < 50 && b != nil; steps++ {
+				last := b.Instrs[len(b.Instrs)-1]
+				switch x := last.(type) {
+				case *ssa.Return:
+					if s, ok := ConstString(x.Results[0]); ok && s == "stream" {
+						rendered[k] = true
+					}
+					b = nil
+				case *ssa.If:
+					bo, ok := x.Cond.(*ssa.BinOp)
+					if !ok || bo.X != ssa.Value(mf.Params[0]) {
+						b = nil
+						break
+					}
+					kk, _ := ConstInt(bo.Y)
+					eq := itoa(int(kk)) == k
+					if bo.Op == token.NEQ {
+						eq = !eq
+					}
+					if eq {
+						b = b.Succs[0]
+					} else {
+						b = b.Succs[1]
+					}
+				case *ssa.Jump:
+					b = b.Succs[0]
+				default:
+					b = nil
+				}
+			}
+		}
+	}
+	var a, b []string
+	for k := range dispatch {
+		a = append(a, k)
+	}
+	for k := range rendered {
+		b = append(b, k)
+	}
+	sort.Strings(a)
+	sort.Strings(b)
+	r.Check(len(a) >= 2 && strings.Join(a, ",") == strings.Join(b, ","), "R-GATE-DRAIN", "stream-predicate-table", u.Pos(serveOne.Pos()),
+		"MethodType values dispatched to serveStream {"+strings.Join(a, ",")+"} = values rendered \"stream\"", "serveOne dispatches MethodType {"+strings.Join(a, ",")+"} to serveStream but methodTypeString renders {"+strings.Join(b, ",")+"} as \"stream\": the stream predicate used by the refusal drain and the hooks disagrees with the dispatcher")
 }
 
 func reachable(fn *ssa.Function, from, to ssa.Instruction) bool {
